@@ -4,6 +4,8 @@ mod exec2;
 mod exec3;
 mod exec4;
 mod exec5;
+mod exec6;
+mod gen_paserk;
 mod gen_tok;
 mod gen_claims;
 mod facts;
@@ -44,6 +46,11 @@ fn main() {
                 "c01" => gen_tok::gen_c01(&mut out, seed, thorough),
                 "c02" => gen_tok::gen_c02(&mut out, seed, thorough),
                 "c03" => gen_tok::gen_c03(&mut out, seed, thorough),
+                "c05" => gen_paserk::gen_c05(&mut out, seed, thorough),
+                "c06" => gen_paserk::gen_c06(&mut out, seed, thorough),
+                "c07" => gen_paserk::gen_c07(&mut out, seed, thorough),
+                "c08" => gen_paserk::gen_c08(&mut out, seed, thorough),
+                "c13" => gen_paserk::gen_c13(&mut out, seed, thorough),
                 "c11" => gen_claims::gen_c11(&mut out, seed, thorough),
                 "c12pipe" => gen_claims::gen_c12pipe(&mut out, seed, thorough),
                 "c14" => gen_claims::gen_c14(&mut out, seed, thorough),
